@@ -334,12 +334,12 @@ impl NodeRecordStore {
             timestamp: self.timestamp,
         };
 
-        spawn(async move {
-            if let Ok(mut file) = fs::File::create(file_path) {
-                let mut serialiser = rmp_serde::encode::Serializer::new(&mut file);
-                let _ = historic_quoting_metrics.serialize(&mut serialiser);
-            }
-        });
+        // Written in place rather than from a spawned task: the file is a few bytes, and two
+        // spawned flushes could complete in either order, leaving an older count on disk.
+        if let Ok(mut file) = fs::File::create(file_path) {
+            let mut serialiser = rmp_serde::encode::Serializer::new(&mut file);
+            let _ = historic_quoting_metrics.serialize(&mut serialiser);
+        }
     }
 
     /// Creates a new `DiskBackedStore` with the given configuration.
